@@ -203,12 +203,12 @@ let run_pie_case (idx : int) (toks : string list) (fuel : nat) (with_dump : bool
   while peek t <> None do
     (match next t with
      | "E" -> let r = num t in let v = num t in
-       let (_, w') = run_step !tb fuel !w (HEdit (n_of_int r, Some (z_of_int v))) in w := w'
+       let (_, w') = dsl_run_step !tb fuel !w (HEdit (n_of_int r, Some (z_of_int v))) in w := w'
      | "D" -> let r = num t in
-       let (_, w') = run_step !tb fuel !w (HEdit (n_of_int r, None)) in w := w'
+       let (_, w') = dsl_run_step !tb fuel !w (HEdit (n_of_int r, None)) in w := w'
      | "F" -> let k = num t in
        let rs = List.init k (fun _ -> n_of_int (num t)) in
-       let (_, w') = run_step !tb fuel !w (HEnv rs) in w := w'
+       let (_, w') = dsl_run_step !tb fuel !w (HEnv rs) in w := w'
      | "S" ->
        let k = num t in
        let sops = List.init k (fun _ -> match next t with
@@ -216,7 +216,7 @@ let run_pie_case (idx : int) (toks : string list) (fuel : nat) (with_dump : bool
            | "b" -> let m = num t in SBottomUp (List.init m (fun _ -> n_of_int (num t)))
            | x -> failwith ("bad sop " ^ x)) in
        Printf.printf "S %d\n" !step;
-       let (rs, w') = run_step !tb fuel !w (HSession sops) in
+       let (rs, w') = dsl_run_step !tb fuel !w (HSession sops) in
        w := w';
        List.iteri (fun i r ->
            let sop = List.nth sops i in
@@ -389,7 +389,7 @@ let run_keys_case (idx : int) (toks : string list) (fuel : nat) =
         | "E" -> HEdit (n_of_int (res f v), Some (z_of_int x))
         | "D" -> HEdit (n_of_int (res f v), None)
         | _ -> HSession [SBottomUp [n_of_int (res f v)]] in
-      let (rs, w') = run_step table fuel !w step in
+      let (rs, w') = dsl_run_step table fuel !w step in
       w := w';
       let execs = match step with HSession _ -> List.length (List.filter (fun e -> match e with EExecStart _ -> true | _ -> false) !w.trace) | _ -> 0 in
       let r = match rs with
